@@ -277,6 +277,14 @@ impl Stream for PutqStream {
                                 if want == 0 {
                                     out.violation("C08", "concurrency-without-3xx", format!("put failed with {c:?} although no storing node answered with that code"));
                                 }
+                                let other = match c {
+                                    ConcurrencyError::CasFailed => n302,
+                                    ConcurrencyError::NotMostRecent => n301,
+                                    ConcurrencyError::ConflictRisk => 0,
+                                };
+                                if other > want {
+                                    out.violation("C17", "minority-code-reported", format!("put failed with {c:?} ({want} such answers) although the other concurrency code was answered {other} times"));
+                                }
                                 if !self.mutable {
                                     out.violation("C17", "concurrency-for-non-mutable", format!("{c:?} produced for a put that is not a mutable item (the API facade hits unreachable!())"));
                                 }
